@@ -184,7 +184,8 @@ class MpReachNLRI(Attribute):
         # for l2vpn
         elif afi == afn.AFNUM_L2VPN:
             if safi == safn.SAFNUM_EVPN:
-                nexthop = str(netaddr.IPAddress(int(binascii.b2a_hex(nexthop_bin), 16)))
+                nexthop = str(netaddr.IPAddress(
+                    int(binascii.b2a_hex(nexthop_bin), 16), 6 if len(nexthop_bin) == 16 else 4))
                 nlri = EVPN.parse(nlri_bin)
                 return dict(afi_safi=(afi, safi), nexthop=nexthop, nlri=nlri)
             else:
